@@ -67,7 +67,9 @@ CLAIMS = {
               "notifier; repaired c6f0cab, Race2.Repaired.* and a stored-path witness replayed through a checkpoint). F17 "
               "repaired (3b12fce). The reference's own race detection (vector clocks of Spec/SC.lean) is proved to decide the "
               "declarative data race: Props/VCSound.lean race_reported_iff_unordered_conflict over executions with history "
-              "and a declaratively defined happens-before (locks, rwlocks, Notify, park, channels, cells). Known: F7, F27 "
+              "and a declaratively defined happens-before (locks, rwlocks, Notify, park, channels, cells); composed with the "
+              "exactness theorems in Props/RaceDecl.lean (twin report => unordered conflicting pair in a trace with the "
+              "twin's own event log; completed run => every conflicting pair ordered). Known: F7, F27 "
               "(SeqCst fence order treated as happens-before hides a race)."),
         ref="DESIGN.md §3 C04",
         technique="Lean 4 decision-logic theorems for the race detector + race oracles (RC11, SC+vector clocks) + decision replay"),
